@@ -12,7 +12,8 @@ LEVEL = "model_checking"
 RULE = (
     "state = a text, transition = format_code(., cfg) on the real code; initial states = every atom program (module "
     "context; thorough: all contexts and every ordered pair of core atoms), every construct of the construct corpus, "
-    "every repository example and four cascade families (each pass enables the next; n = 3..12, thorough ..30), under cfg in {default, safe, keep_imports}; from every initial state the orbit x, "
+    "every repository example and four cascade families (each pass enables the next; n = 3..12, thorough ..30), four layout-sensitive if/else "
+    "families whose branches are short / medium / longer than the line limit (3 x 3 sizes), under cfg in {default, safe, keep_imports}; from every initial state the orbit x, "
     "F(x), F(F(x)), ... is followed until a text repeats or 6 applications are done. invariant: the orbit reaches a "
     "self-loop within 5 applications (F^5(x) == F^6(x)) and contains no cycle other than the self-loop. non-trivial = "
     "the first application changed the text"
@@ -37,6 +38,10 @@ def units(tier):
     for name in CASCADES:
         for n in (3, 6, 9, 12) if tier == "quick" else (3, 6, 9, 12, 20, 30):
             yield {"ref": ["cascade", name, n]}
+    for shape in LAYOUT_SHAPES:
+        for n in (1, 3, 6):
+            for m in (1, 3, 6):
+                yield {"ref": ["layout", shape, n, m]}
     for n in corpus.CONSTRUCTS:
         yield {"ref": ["construct", n, "alone"]}
     for e in corpus.repo_examples():
@@ -52,7 +57,36 @@ CASCADES = {
 }
 
 
+def _longdict(prefix, n):
+    return "{" + ", ".join("'%s_key_number_%d': %s_value_%d" % (prefix, i, prefix, i) for i in range(n)) + "}"
+
+
+def layout_sensitive(shape, n, m):
+    """if/else whose branches are single statements that the line-wrapping stage explodes over several lines
+    when they have many items: layout after one application differs from the layout the rules saw (family added
+    after the seeded change C09-swap-preference-line-span)."""
+    a, b = _longdict("first", n), _longdict("second", m)
+    names = ", ".join(["first_value_%d" % i for i in range(n)] + ["second_value_%d" % i for i in range(m)])
+    head = "def build(verbose, %s):\n" % names
+    if shape == "if_return_return":
+        body = "    if verbose:\n        return %s\n    return %s\n" % (a, b)
+    elif shape == "if_else_return":
+        body = "    if verbose:\n        return %s\n    else:\n        return %s\n" % (a, b)
+    elif shape == "loop_continue":
+        body = "    out = []\n    for item in (1, 2):\n        if verbose:\n            out.append(%s)\n            continue\n        out.append(%s)\n    return out\n" % (a, b)
+    elif shape == "if_else_call":
+        body = "    if not verbose:\n        print(%s)\n    else:\n        print(%s)\n    return 0\n" % (a, b)
+    else:
+        raise ValueError(shape)
+    return head + body + "print(build(True, %s))\n" % ", ".join(["0"] * (n + m))
+
+
+LAYOUT_SHAPES = ["if_return_return", "if_else_return", "loop_continue", "if_else_call"]
+
+
 def get(ref):
+    if ref[0] == "layout":
+        return layout_sensitive(ref[1], ref[2], ref[3])
     if ref[0] == "cascade":
         return CASCADES[ref[1]](ref[2])
     if ref[0] == "prog":
